@@ -65,7 +65,7 @@ func runC02(c *Ctx) {
 				}
 				if f.Kind == "true" {
 					q := &PathQuery{Fn: rb, EdgeBarrier: leave}
-					q.Target = func(ins ssa.Instruction, via *ssa.BasicBlock) bool { return isCallNamed("putRawUnmined")(ins) }
+					q.Target = func(ins ssa.Instruction, via *ssa.BasicBlock) bool { return mayCallNamed("putRawUnmined")(ins) }
 					hits := exploreFromBlock(q, b.Succs[si], b)
 					c.Check("C02-R3", "coinbase-never-requeued", lastPos(b), len(hits) == 0,
 						"a coinbase transaction of a disconnected block can be moved to the unconfirmed store")
@@ -86,7 +86,7 @@ func runC02(c *Ctx) {
 			"an input of a rolled-back transaction is not re-registered in the unconfirmed-spender index")
 		// per credit of a non-coinbase tx: putRawUnminedCredit and deleteRawCredit unless no credit
 		for _, l := range loopsRangingOver(rb, "TxOut") {
-			if !l.containsInstr(isCallNamed("putRawUnminedCredit")) {
+			if !l.containsInstr(mayCallNamed("putRawUnminedCredit")) {
 				continue
 			}
 			for _, callee := range []string{"putRawUnminedCredit", "deleteRawCredit"} {
@@ -97,7 +97,7 @@ func runC02(c *Ctx) {
 		}
 		// coinbase credits: each existing credit recorded and deleted
 		for _, l := range loopsRangingOver(rb, "TxOut") {
-			if l.containsInstr(isCallNamed("putRawUnminedCredit")) || !l.containsInstr(isCallNamed("deleteRawCredit")) {
+			if l.containsInstr(mayCallNamed("putRawUnminedCredit")) || !l.containsInstr(mayCallNamed("deleteRawCredit")) {
 				continue
 			}
 			bad := l.MustPassPerIteration(p, isCallNamed("deleteRawCredit"), nilEdgeOf("existsCredit"))
@@ -129,14 +129,20 @@ func runC02(c *Ctx) {
 		c.Check("C02-R4", "Rollback-reaches-rollback", roll.Pos(), p.reachSet(roll)[p.Func("wtxmgr", "Store", "rollback")], "Store.Rollback no longer reaches rollback")
 		// ... on every success path: block records exist only for blocks that hold a wallet transaction, so no
 		// property of the block at `height` itself can justify skipping the walk over the blocks above it
-		bad := p.mustPassToSuccess(roll, nil, isCallNamed("rollback"), nil)
-		c.Check("C02-R4", "Rollback-always-runs-rollback", roll.Pos(), bad == nil,
-			"Store.Rollback can report success without running rollback (e.g. a shortcut on the block record at exactly the requested height): blocks above a wallet-empty height stay connected after a multi-block reorg")
 	}
 }
 
 // checkRollbackWalk: the store's rollback walks down over every block record at or above the target.
 func checkRollbackWalk(c *Ctx, rule string) {
+	// the exported entry runs the walk on every success path: block records exist only for blocks that hold a wallet
+	// transaction, so no property of the block at `height` itself can justify skipping the walk over the blocks above it
+	if roll := c.P.Func("wtxmgr", "Store", "Rollback"); roll != nil {
+		bad := c.P.mustPassToSuccess(roll, nil, isCallNamed("rollback"), nil)
+		c.Check(rule, "Rollback-always-runs-rollback", roll.Pos(), bad == nil,
+			"Store.Rollback can report success without running rollback (e.g. a shortcut on the block record at exactly the requested height): blocks above a wallet-empty height stay connected after a multi-block reorg")
+	} else {
+		c.Unresolved(rule, "wtxmgr.Store.Rollback")
+	}
 	// an iterator is repositioned at the record it is standing on (after nested cursors moved it away), not at some other
 	// key: repositioning at the rollback target lands the next prev() below the target and ends the walk after one block
 	if rbf := wtxFn(c, rule, "rollback"); rbf != nil {
